@@ -25,6 +25,16 @@ func genC02() *rapid.Generator[Case] {
 			// a sealed segment then holds more than 8 transactions: its on-disk transaction-id tree has inner nodes
 			maxSteps = 60
 		}
+		if rapid.IntRange(0, 11).Draw(t, "treeshape") == 5 {
+			// tree-shape case (see genTreeShapeSteps): 20-70 keys inserted in a structured order into the active
+			// segment's tree (one large segment), then a short ordinary history
+			keys = genKeys(keyAlphabet, 20, 70, 3).Draw(t, "tskeys")
+			c.Cfg.Seg = 8192
+			c.Steps = append(c.Steps, genTreeShapeSteps(t, bucket, keys)...)
+			maxSteps = 6
+			shape.Kind = "bulk"
+			c.Extra = map[string]interface{}{"treeshape": true}
+		}
 		n := rapid.IntRange(1, maxSteps).Draw(t, "nsteps")
 		var clk *clockGen
 		if rapid.IntRange(0, 9).Draw(t, "clocked") < 3 {
